@@ -124,11 +124,11 @@ Lemma count_partition {A} (parts : list (list A)) :
 Proof. induction parts as [|p parts IH]; simpl; [reflexivity|]. rewrite app_length, IH. reflexivity. Qed.
 
 Example distribute_example :
-  opt_distribute 2 (EAgg "max" false [] None (EAgg "count" false [] None (EVec (mkVS [] 0 0 None None)))) =
+  opt_distribute 2 (EAgg "max" false [] None (EAgg "count" false [] None (EVec (mkVS [] 0 0 None None 0)))) =
   EAgg "max" false [] None
     (EAgg "sum" false [] None
-       (ECoalesce [ERemote 0 (EAgg "count" false [] None (EVec (mkVS [] 0 0 None None)));
-                   ERemote 1 (EAgg "count" false [] None (EVec (mkVS [] 0 0 None None)))])) /\
-  opt_distribute 2 (EAgg "avg" false [] None (EVec (mkVS [] 0 0 None None))) =
-  EAgg "avg" false [] None (ECoalesce [ERemote 0 (EVec (mkVS [] 0 0 None None)); ERemote 1 (EVec (mkVS [] 0 0 None None))]).
+       (ECoalesce [ERemote 0 (EAgg "count" false [] None (EVec (mkVS [] 0 0 None None 0)));
+                   ERemote 1 (EAgg "count" false [] None (EVec (mkVS [] 0 0 None None 0)))])) /\
+  opt_distribute 2 (EAgg "avg" false [] None (EVec (mkVS [] 0 0 None None 0))) =
+  EAgg "avg" false [] None (ECoalesce [ERemote 0 (EVec (mkVS [] 0 0 None None 0)); ERemote 1 (EVec (mkVS [] 0 0 None None 0))]).
 Proof. split; vm_compute; reflexivity. Qed.
